@@ -203,6 +203,7 @@ func c18Child(c *mon.Child) {
 		c.Nontrivial("bad:" + lit)
 	}
 	c18Combined(c)
+	c18Chained(c)
 	c18Retype(c)
 	// Upper and Map: exactly the selected types, positions untouched, each token once, in order, before elision.
 	nm := c.N(3000, 20000)
@@ -485,4 +486,91 @@ func c18Via[G any](p *participle.Parser[G], which int, input string) (*G, error)
 		return p.ParseFromLexer(pl)
 	}
 	return p.ParseString("q.txt", input)
+}
+
+// c18Chained: several Map options made from one function literal (in a loop)
+// for the same token type, and several all-token mappers: every one of them
+// is applied, once, in option order.
+func c18Chained(c *mon.Child) {
+	mk := func(sfx string, types ...string) participle.Option {
+		return participle.Map(func(t lexer.Token) (lexer.Token, error) {
+			if t.Type != lexer.EOF {
+				t.Value += sfx
+			}
+			return t, nil
+		}, types...)
+	}
+	typed := []participle.Option{participle.Lexer(c18Lex), participle.Elide("WS")}
+	for _, sfx := range []string{"1", "2", "3"} {
+		typed = append(typed, mk(sfx, "Ident"))
+	}
+	all := []participle.Option{participle.Lexer(c18Lex), participle.Elide("WS")}
+	for _, sfx := range []string{"A", "B"} {
+		all = append(all, mk(sfx))
+	}
+	mixed := []participle.Option{participle.Lexer(c18Lex), participle.Elide("WS")}
+	for _, sfx := range []string{"x", "y"} {
+		mixed = append(mixed, mk(sfx, "Ident", "Num"), mk(sfx+sfx, "Num"))
+	}
+	cases := []struct {
+		desc string
+		opts []participle.Option
+		want func(name, v string) string
+	}{
+		{"three Map options from one literal on Ident", typed, func(name, v string) string {
+			if name == "Ident" {
+				return v + "123"
+			}
+			return v
+		}},
+		{"two all-token Map options from one literal", all, func(name, v string) string { return v + "AB" }},
+		{"overlapping selections from one literal", mixed, func(name, v string) string {
+			switch name {
+			case "Ident":
+				return v + "xy"
+			case "Num":
+				return v + "xxxyyy"
+			}
+			return v
+		}},
+	}
+	names := map[lexer.TokenType]string{}
+	for n, t := range c18Lex.Symbols() {
+		names[t] = n
+	}
+	for ci, tc := range cases {
+		key := fmt.Sprintf("chain%d", ci)
+		if !c.Want(key) {
+			continue
+		}
+		c.Begin(key, "chained mappers: "+tc.desc)
+		p, err := participle.Build[c18S](tc.opts...)
+		if err != nil {
+			c.Violation("", key, "parser with "+tc.desc+" does not build: "+err.Error(), nil)
+			c.End(key)
+			continue
+		}
+		for _, input := range []string{"abc 12 x", "7", "a", "a b c 1 2 ;", ""} {
+			c.Eval(1)
+			raw, lerr := lexer.ConsumeAll(mustLex(c18Lex.LexString("c.txt", input)))
+			mapped, merr := p.Lex("c.txt", strings.NewReader(input))
+			if lerr != nil || merr != nil || len(raw) != len(mapped) {
+				c.Violation("", key, fmt.Sprintf("%s: %d mapped tokens (err %v), %d raw (err %v) | input %q", tc.desc, len(mapped), merr, len(raw), lerr, input), nil)
+				continue
+			}
+			for j, t := range raw {
+				want := t
+				if t.Type != lexer.EOF {
+					want.Value = tc.want(names[t.Type], t.Value)
+				}
+				if mapped[j] != want {
+					c.Violation("", key, fmt.Sprintf("%s: token #%d is %#v, expected %#v (every mapper once, in option order) | input %q", tc.desc, j, mapped[j], want, input), map[string]interface{}{"input": input})
+					break
+				}
+			}
+		}
+		c.Nontrivial("chain:" + tc.desc)
+		c.Feature("chained_mapper_parsers_checked")
+		c.End(key)
+	}
 }
